@@ -1,6 +1,7 @@
 """C11 — malformed command lines rejected before any action; never a panic."""
 from .. import audit, dispatch, fmtlit, panic, prim
 from . import common as C
+from . import shared
 
 M = C.M
 LM = M + "logical_matchers::"
@@ -314,6 +315,7 @@ def run(ctx):
                 ctx.ob("R6", "anchored:%s" % prim.short(p), ok,
                        "the validating regular expression %r in %s is not anchored at both ends: an operand/primary with leading or trailing garbage passes validation" % (pat, p), fn=f, where=prim.site(f, b), how="constant argument")
     ctx.floor("R6", "validating regular expressions", n_re, 4)
+    shared.regex_validated_as_written(ctx, "R6")
     # ---- R7 panic audit --------------------------------------------------------------------------------------------------------
     audit.run(ctx, "R7", [C.FIND_MAIN, "find::main"], "find")
     for comp in panic.recursion_cycles(prog, [C.FIND_MAIN, "find::main"]):
